@@ -40,7 +40,7 @@ func guardedRT(c *h.Ctx) {
 		ans := m.Call("(C02 guard (" + modelTy(val.Type()) + " " + modelVal(zctx, val.Type(), val.Bytes()) + "))")
 		c.Eval("guarded" + caseKey(cs))
 		c.Res.ModelCases++
-		holds := ans == "plain=1 wfTy=1 wfVal=1 bareEmpty=0"
+		holds := ans == "plain=1 wfTy=1 wfVal=1 bareEmpty=0 errOK=1"
 		if !holds {
 			c.Stat("guarded:guard-false:" + ans)
 			if strings.Contains(ans, "wfVal=0") && len(c.Res.Notes) < 3 {
